@@ -183,7 +183,7 @@ def run_check(mod, tier, seed, n_runs=None, workers=None, budget_s=None, quiet=F
     agg = {"fired": {}, "probes": {}, "steps": 0, "sim_time": 0.0}
     digests, nontrivial, shapes = set(), set(), set()
     per_kind = {"sweep": 0, "search": 0}
-    samples = []
+    samples_search, samples_sweep = [], []
     failing = []
     extras = []
     for r in results:
@@ -199,8 +199,10 @@ def run_check(mod, tier, seed, n_runs=None, workers=None, budget_s=None, quiet=F
             agg["fired"][k] = agg["fired"].get(k, 0) + v
         for k, v in (r["probes"] or {}).items():
             agg["probes"][k] = agg["probes"].get(k, 0) + v
-        if r.get("sample") and len(samples) < 6:
-            samples.append(r["sample"])
+        if r.get("sample"):
+            bucket = samples_search if r["kind"] == "search" else samples_sweep
+            if len(bucket) < 5:
+                bucket.append(dict(r["sample"], _from=r["kind"]))
         if r.get("extra"):
             extras.append(r["extra"])
         if r["harness_error"]:
@@ -259,7 +261,7 @@ def run_check(mod, tier, seed, n_runs=None, workers=None, budget_s=None, quiet=F
         "evaluations": n,
         "distinct_nontrivial": len(nontrivial),
         "rule": mod.RULE,
-        "samples": samples or [{"note": "no sample captured"}],
+        "samples": (samples_search[:4] + samples_sweep[:2]) or [{"note": "no sample captured"}],
         "distinct_digests": len(digests),
         "distinct_schedule_shapes": len(shapes),
         "search_runs": per_kind["search"],
